@@ -162,6 +162,58 @@ namespace
         }
         return s;
     }
+    // the harness's own structural signature of a generated space (type and dimension of every node, arity of the
+    // compounds): what makes two spaces "different" for the wrong-space fault is decided here, not by asking the library
+    std::string ownSignature(const Json &s)
+    {
+        std::string t = s.gets("t");
+        if (t == "rv")
+            return "rv" + std::to_string(s.geti("n", 2));
+        if (t != "compound")
+            return t;
+        std::string r = "c[";
+        for (auto &c : s["c"].items())
+            r += ownSignature(c) + ",";
+        return r + "]";
+    }
+    // a near twin: one leaf replaced by a space of another type with the same dimension and serialization length
+    // (R^1 / SO(2) / time: 1 value, 8 bytes; R^3 / SE(2): 3 values, 24 bytes); false if the space has no such leaf
+    bool twinLeaf(sim::Rng &g, Json &s, int &budget)
+    {
+        std::string t = s.gets("t");
+        if (t == "compound")
+        {
+            for (auto &c : s["c"].items())
+                if (twinLeaf(g, c, budget))
+                    return true;
+            return false;
+        }
+        std::vector<std::string> alt;
+        if ((t == "rv" && s.geti("n", 2) == 1) || t == "so2" || t == "time")
+            alt = {"rv1", "so2", "time"};
+        else if ((t == "rv" && s.geti("n", 2) == 3) || t == "se2")
+            alt = {"rv3", "se2"};
+        if (alt.empty() || budget-- > 0)
+            return false;
+        std::string cur = t == "rv" ? "rv" + std::to_string(s.geti("n", 2)) : t;
+        std::string pick;
+        do
+            pick = g.pick(alt);
+        while (pick == cur);
+        double w = s.getd("w", 1.0);
+        bool hasW = s.has("w");
+        s = Json::object();
+        if (pick[0] == 'r')
+        {
+            s["t"] = "rv";
+            s["n"] = (long)(pick[2] - '0');
+        }
+        else
+            s["t"] = pick;
+        if (hasW)
+            s["w"] = w;
+        return true;
+    }
     ob::StateSpacePtr buildSpace(const Json &s)
     {
         std::string t = s.gets("t");
@@ -220,11 +272,13 @@ namespace
     Json genCase(sim::Rng &g, bool thorough)
     {
         Json plan = Json::object();
+        bool twin = false;
         static const char *kinds[] = {"states", "states", "pdata", "pdata", "cpdata"};
         plan["kind"] = g.pick(kinds);
         plan["space"] = genSpace(g, 0);
         plan["other_space"] = genSpace(g, 0);
         plan["ompl_seed"] = (long)g.range(1, 1000000000);
+        twin = true;
         plan["n"] = (long)g.range(0, thorough ? 40 : 14);
         plan["edges"] = (long)g.range(0, thorough ? 80 : 24);
         plan["removed"] = (long)g.range(0, 3);
@@ -248,6 +302,15 @@ namespace
         if (g.chance(0.6))
             add("other-space");
         plan["ops"] = ops;
+        // (drawn last) the wrong space is a near twin of the right one: same shape, same total dimension and serialization
+        // length, one leaf of another type
+        if (twin && g.chance(0.4))
+        {
+            Json t = plan["space"];
+            int skip = (int)g.below(3);
+            if (twinLeaf(g, t, skip))
+                plan["other_space"] = t;
+        }
         return plan;
     }
 }  // namespace
@@ -342,7 +405,7 @@ sim::CaseResult IoSim::run(const sim::Options &, const Json &plan)
     std::vector<int> sigA, sigB;
     sp->computeSignature(sigA);
     other->computeSignature(sigB);
-    bool otherDiffers = sigA != sigB;
+    bool otherDiffers = ownSignature(plan["space"]) != ownSignature(plan["other_space"]);  // (not: sigA != sigB)
     auto sampler = sp->allocStateSampler();
     int n = (int)plan.geti("n");
     std::vector<ob::State *> states;
